@@ -85,6 +85,20 @@ func c03Child(c *mon.Child) {
 		c.Feature("maps_accepted")
 		names := symNames(def)
 		inputs := lexInputs(r.Fork("inputs"), g, nInputs)
+		// lexers of one definition do not share state: two of them advanced alternately
+		for k := 0; k+1 < len(inputs) && k < 12; k += 2 {
+			if len(inputs[k]) > 3000 || len(inputs[k+1]) > 3000 {
+				continue
+			}
+			key := fmt.Sprintf("m%d.pair%d", mi, k)
+			if !c.Want(key) {
+				continue
+			}
+			c.Begin(key, fmt.Sprintf("%s <- interleaved %q / %q", trunc(g.String(), 300), trunc(inputs[k], 100), trunc(inputs[k+1], 100)))
+			lexInterleave(c, key, "runtime", def, names, inputs[k], inputs[k+1], trunc(g.String(), 600))
+			c.Feature("pairs_of_lexers_advanced_alternately")
+			c.End(key)
+		}
 		for ii, in := range inputs {
 			key := fmt.Sprintf("m%d.i%d", mi, ii)
 			if !c.Want(key) {
